@@ -11,6 +11,8 @@ package checks
 
 import (
 	"sync"
+	"sync/atomic"
+	"time"
 )
 
 const BlockSize = 4096
@@ -22,15 +24,69 @@ type Event struct {
 }
 
 type Disk struct {
-	mu     sync.Mutex
-	size   uint64
-	init   map[uint64][]byte // contents at construction (never modified)
-	cur    map[uint64][]byte // writes since construction
-	trace  []Event
-	record bool
-	reads  uint64
-	closed bool
-	gate   chan struct{} // non-nil: writes block until it is closed (the device stopped accepting writes)
+	mu      sync.Mutex
+	size    uint64
+	init    map[uint64][]byte // contents at construction (never modified)
+	cur     map[uint64][]byte // writes since construction
+	trace   []Event
+	record  bool
+	reads   uint64
+	closed  bool
+	gate    chan struct{} // non-nil: writes block until it is closed (the device stopped accepting writes)
+	hook    atomic.Pointer[func(kind string, addr uint64)]
+	nwrites uint64
+}
+
+// SetHook installs f, called (outside the disk's mutex, on the caller's goroutine) at the start of every
+// Read ("r"), at the end of every Read when the data has been fetched ("R") and at the start of every Write ("w"); nil removes it.  Used to hold one client between two of its disk accesses.
+func (d *Disk) SetHook(f func(kind string, addr uint64)) {
+	if f == nil {
+		d.hook.Store(nil)
+		return
+	}
+	d.hook.Store(&f)
+}
+
+// DiskPause holds the goroutine registered with Enter at its K-th disk access until Release or MaxWait.
+type DiskPause struct {
+	K       int32
+	MaxWait time.Duration
+	gid     atomic.Uint64
+	n       atomic.Int32
+	Paused  atomic.Bool
+	reached chan struct{}
+	release chan struct{}
+	once    sync.Once
+	ronce   sync.Once
+}
+
+func NewDiskPause(k int, maxWait time.Duration) *DiskPause {
+	return &DiskPause{K: int32(k), MaxWait: maxWait, reached: make(chan struct{}), release: make(chan struct{})}
+}
+
+// Enter registers the calling goroutine as the one to hold.
+func (p *DiskPause) Enter() { p.gid.Store(goid()) }
+
+// Reach marks the pause point as reached (also called when the held client finishes without reaching it).
+func (p *DiskPause) Reach()   { p.once.Do(func() { close(p.reached) }) }
+func (p *DiskPause) Release() { p.ronce.Do(func() { close(p.release) }) }
+
+// Reached is closed once the held client sits at its pause point (or has finished).
+func (p *DiskPause) Reached() <-chan struct{} { return p.reached }
+
+func (p *DiskPause) Hook(kind string, addr uint64) {
+	if g := p.gid.Load(); g == 0 || goid() != g {
+		return
+	}
+	if p.n.Add(1)-1 != p.K {
+		return
+	}
+	p.Paused.Store(true)
+	p.Reach()
+	select {
+	case <-p.release:
+	case <-time.After(p.MaxWait):
+	}
 }
 
 // CloseGate makes every later Write block until OpenGate; it returns the disk contents at that moment.
@@ -79,6 +135,9 @@ func (d *Disk) get(a uint64) []byte {
 }
 
 func (d *Disk) Read(a uint64) []byte {
+	if h := d.hook.Load(); h != nil {
+		(*h)("r", a)
+	}
 	d.mu.Lock()
 	if a >= d.size {
 		d.mu.Unlock()
@@ -88,10 +147,16 @@ func (d *Disk) Read(a uint64) []byte {
 	copy(b, d.get(a))
 	d.reads++
 	d.mu.Unlock()
+	if h := d.hook.Load(); h != nil {
+		(*h)("R", a) // the data has been fetched; delivering it may take a while
+	}
 	return b
 }
 
 func (d *Disk) ReadTo(a uint64, b []byte) {
+	if h := d.hook.Load(); h != nil {
+		(*h)("r", a)
+	}
 	d.mu.Lock()
 	if a >= d.size {
 		d.mu.Unlock()
@@ -99,6 +164,9 @@ func (d *Disk) ReadTo(a uint64, b []byte) {
 	}
 	copy(b, d.get(a))
 	d.mu.Unlock()
+	if h := d.hook.Load(); h != nil {
+		(*h)("R", a)
+	}
 }
 
 func (d *Disk) Write(a uint64, v []byte) {
@@ -107,6 +175,9 @@ func (d *Disk) Write(a uint64, v []byte) {
 	}
 	b := make([]byte, BlockSize)
 	copy(b, v)
+	if h := d.hook.Load(); h != nil {
+		(*h)("w", a)
+	}
 	d.mu.Lock()
 	for d.gate != nil {
 		g := d.gate
@@ -119,6 +190,7 @@ func (d *Disk) Write(a uint64, v []byte) {
 		panic("crashdisk: write out of bounds")
 	}
 	d.cur[a] = b
+	atomic.AddUint64(&d.nwrites, 1)
 	if d.record {
 		d.trace = append(d.trace, Event{Addr: a, Blk: b})
 	}
@@ -126,6 +198,21 @@ func (d *Disk) Write(a uint64, v []byte) {
 }
 
 func (d *Disk) Size() uint64 { return d.size }
+
+// WaitQuiet returns once no write has arrived for the duration quiet (or max has passed): background
+// installation has probably caught up.  Only used to set a scene, never for a verdict.
+func (d *Disk) WaitQuiet(quiet, max time.Duration) {
+	t0 := time.Now()
+	last, since := atomic.LoadUint64(&d.nwrites), time.Now()
+	for time.Since(t0) < max {
+		time.Sleep(50 * time.Microsecond)
+		if n := atomic.LoadUint64(&d.nwrites); n != last {
+			last, since = n, time.Now()
+		} else if time.Since(since) >= quiet {
+			return
+		}
+	}
+}
 
 func (d *Disk) Barrier() {
 	d.mu.Lock()
